@@ -10,9 +10,24 @@ def check(prop, tier, only):
     import checks
     cfgs = ["rwd", "dbg"] if tier == "quick" else ["rel", "rwd", "dbg", "dbg16"]
     jobs = [checks.J("h_arith", cfg, "", name=f"arith[{cfg}]") for cfg in cfgs]
-    return checks.run_enum_check(
-        prop, tier, jobs, level="exploration", only=only,
-        note="input-domain enumeration of round_up_to_multiple_of_alignment, align_offset (integer and pointer form), "
+    # bucket selection is a function of the array's bound as well: after a move assignment / swap between collections with
+    # DIFFERENT max_node_size the bucket chosen for a size must still have nodes at least that large (explorer, real collections)
+    ex = []
+    for cfg in cfgs[:2]:
+        for a_, b_ in ((32, 16), (16, 32), (64, 16)):  # (a single-bucket collection is outside the documented block size requirement in fence configurations)
+            j = checks.J("h_coll", cfg, f"--type array --buckets log2 --src constant --maxns {a_} --maxns2 {b_} --bs 640 --sizes 8,32,{max(a_, b_)} --L 2 --B 2 --arena 4096 --moves 2",
+                         name=f"bucket-selection-after-move/log2 maxns {a_} vs {b_}[{cfg}]", moves=True)
+            j["own"] = ["M-inside", "M-freelist", "M-disjoint", "M-maxima"]
+            ex.append(j)
+        j = checks.J("h_coll", cfg, "--type array --buckets identity --src constant --maxns 12 --maxns2 20 --bs 1280 --sizes 8,12,20 --L 2 --B 2 --arena 8192 --moves 2",
+                     name=f"bucket-selection-after-move/identity maxns 12 vs 20[{cfg}]", moves=True)
+        j["own"] = ["M-inside", "M-freelist", "M-disjoint", "M-maxima"]
+        ex.append(j)
+    return checks.run_explore_check(
+        prop, tier, ex, only=only, enum_jobs=jobs,
+        note="explorer part: two memory_pool_collections with different max_node_size, all histories of requests of every bucket size with move construction / "
+             "move assignment / swap at every point (M-inside/bucket-too-small: node size of the chosen bucket >= request; M-maxima; M-freelist). "
+             "Enumeration part: input-domain enumeration of round_up_to_multiple_of_alignment, align_offset (integer and pointer form), "
              "is_aligned, alignment_for, ilog2, ilog2_ceil, identity/log2 access policies and of "
              "free_list_array<FreeList, AccessPolicy>::get(size).node_size() on real arrays; oracle: least multiple >= x, "
              "least non-negative adjustment, largest power of two dividing the size capped at alignof(max_align_t), "
